@@ -16,6 +16,7 @@ type CfgOpts struct {
 	Casing           string            `json:"casing,omitempty"`
 	Export           bool              `json:"export,omitempty"`
 	Bindings         map[string]string `json:"bindings,omitempty"` // GraphQL name -> Go type
+	Marshalers       map[string][2]string `json:"marshalers,omitempty"` // GraphQL name -> (marshaler, unmarshaler)
 }
 
 func (c *CfgOpts) Apply(s *Schema) func(cfg *generate.Config) {
@@ -45,6 +46,9 @@ func (c *CfgOpts) Apply(s *Schema) func(cfg *generate.Config) {
 		}
 		for k, v := range c.Bindings {
 			cfg.Bindings[k] = &generate.TypeBinding{Type: v}
+			if m, ok := c.Marshalers[k]; ok {
+				cfg.Bindings[k].Marshaler, cfg.Bindings[k].Unmarshaler = m[0], m[1]
+			}
 		}
 	}
 }
